@@ -7,6 +7,10 @@ P2 == << <<GT("a"), LS("a", 2), GT("b")>>, <<GT("a"), EX("a"), LG>> >>
 \* three goroutines
 P3 == << <<GT("a"), EX("a")>>, <<AG(1), GT("a")>>, <<LS("a", 3), GT("a"), EX("a")>> >>
 P4 == << <<GT("b"), EX("b"), AG(3)>>, <<GT("b"), LG, EX("b")>> >>
-cProgramsQuick == {P1, P2}
-cProgramsAll == {P1, P2, P3, P4}
+\* Parse pulling a template in while another goroutine loads it; run-time include racing a first load
+P5 == << <<PA("a"), GT("a")>>, <<GT("a"), LS("a", 2), PA("a")>> >>
+P6 == << <<EXI("a"), LG>>, <<AG(1), GT("a"), EX("a")>> >>
+P7 == << <<EXI("b")>>, <<EXI("b"), AG(2)>>, <<LS("b", 2), GT("b")>> >>
+cProgramsQuick == {P1, P2, P5, P6}
+cProgramsAll == {P1, P2, P3, P4, P5, P6, P7}
 =============================================================================
